@@ -105,10 +105,14 @@ Section View.
     forallb (fun f => is_ok (ext (fobj f) la ac)) (filter (nonconst C) (all_fields C)).
 
   (* --- what get_all_type_info returns, as texts *)
-  Definition wrap_optional (s : pystr) : pystr := (opt_prefix ++ s ++ s2p "] = None")%list.
+  (* a field that is not required: its type wrapped in Optional[...] unless it starts with it, then " = None";
+     a required field: the type text as it is *)
+  Definition wrap_optional (s : pystr) : pystr := (opt_prefix ++ s ++ s2p "]")%list.
+  Definition add_none (s : pystr) : pystr := (s ++ s2p " = None")%list.
   Definition field_text (required : list pystr) (f : fdecl) : pystr * pystr :=
     let s := rendered_text f in
-    (f_name f, if negb (str_in (f_name f) required) && negb (starts_opt_text s) then wrap_optional s else s).
+    (f_name f, if negb (str_in (f_name f) required)
+               then add_none (if starts_opt_text s then s else wrap_optional s) else s).
   Definition type_info_text (C : hier) : list (pystr * pystr) :=
     map (field_text (required_attr apd_run C)) (filter (nonconst C) (all_fields C)).
 End View.
